@@ -35,11 +35,6 @@ def tableSpec (m : Method) (status : Nat) : Option Method :=
     (match m with | .post | .put | .patch | .delete => none | other => some other)
   else (match m with | .head => some .head | .get => some .get | _ => some .get)
 
-def newMethodOf (m : Method) (status : Nat) : Option Method :=
-  if status == 307 || status == 308 then
-    if m.needBody then none else if m == .delete then none else some m
-  else if m == .get || m == .head then some m else some .get
-
 theorem C15_table (m : Method) (status : Nat) : newMethodOf m status = tableSpec m status := by
   unfold newMethodOf tableSpec
   cases m <;> simp [Method.needBody] <;> split <;> simp_all
